@@ -12,7 +12,10 @@ RULE = ("opp: streams of 1-9 segments (valid 7/11-byte reports for configured an
         "and at least one report delivered.  reader: FAST (CR) / PKONE ('E') streams of 1-8 messages incl. empty ones, "
         "bytes that can never be UTF-8, optional truncation, random reads; non-trivial = more than one read and a "
         "message decoded.  writer: 1-12 operations (queue plain / confirmed message, incoming message) against the real "
-        "_socket_writer task on an asyncio loop; non-trivial = a confirmed message and > 2 operations.  retry: "
+        "_socket_writer task on an asyncio loop; non-trivial = a confirmed message and > 2 operations.  fastsw: 2-10 "
+        "SA: snapshots (incl. snapshots identical to an earlier one / to the baseline) interleaved with -L:/L: events for "
+        "configured and unknown switch numbers, fed as bytes to the real FastNetNeuronCommunicator of a machine booted "
+        "like test_Fast_Neuron (real FAST platform, real SwitchController); non-trivial = snapshot and event in one case.  retry: "
         "send_and_wait_for_response_processed with lost / late / timely responses on the virtual-time loop (oracle only)")
 TRUSTED_BASE = [
     "Coq 8.16.1 kernel (coqc); vm_compute for the finite sweeps over bytes (256 and 256x256 cases, lifted to "
@@ -24,7 +27,10 @@ TRUSTED_BASE = [
     "hand-written model coq/C14/Model.v tied to /repo by correspondence on every run: OPPSerialCommunicator._parse_msg + "
     "OppHardwarePlatform.process_received_message/read_gen2_inp_resp/read_matrix_inp_resp, "
     "FastSerialCommunicator.parse_incoming_raw_bytes/_dispatch_incoming_msg/_socket_writer/pause_sending, "
-    "PKONESerialCommunicator._parse_msg, all driven on real objects with mocked platform/machine",
+    "PKONESerialCommunicator._parse_msg, all driven on real objects with mocked platform/machine; "
+    "FastNetNeuronCommunicator._process_sa/update_switches_from_hw_data/_process_switch_open/_closed + "
+    "SwitchController.process_switch_by_num/process_switch_obj on a machine booted by mpf.tests.test_Fast_Neuron.TestFastNeuron.setUp "
+    "(its mock serial boards and tests/machine_files/fast/config/neuron.yaml are part of the rig)",
     "CPython bytes.decode() (model domain: a message decodes iff all bytes < 0x80; generators never emit 0xC2..0xF4), "
     "asyncio Queue/Event/Task scheduling (writer), mpf.tests.loop.TimeTravelLoop (retry suite)",
     "independent Python reference pieces used by the oracles only: bitwise CRC-8 (poly 0x07), byte-at-a-time framing automaton",
@@ -36,6 +42,10 @@ ASSUMPTIONS = [
     "change report if the initial read-out had been lost)",
     "switch state is observed as OPPInputCard.old_state and the process_switch_by_num calls, not through SwitchController",
     "FAST writer: one step of the model = one operation followed by running the loop until idle",
+    "FAST switch reports: SA: snapshots carry 14 bytes (all 112 switch numbers; a shorter snapshot raises KeyError in "
+    "update_switches_from_hw_data for a configured switch beyond it); the event loop is not run between reports "
+    "(switch state is updated synchronously; queued switch events are dropped so that the scripted mock board is not "
+    "driven into games); Nano -N:/N: share the handlers and are not driven separately",
 ]
 LEVEL_TEXT = ("Machine-checked proof (Coq) over executable models of the three incremental decoders and the FAST writer: "
               "the OPP loop refines a byte-at-a-time automaton for every split into reads, CRC-8 (table translated from "
@@ -778,6 +788,166 @@ def oracle_retry(case, out):
     return []
 
 
+
+# ================================================================================================
+# FAST Neuron switch reports: SA: snapshots and -L:/L: events through the REAL FastNetNeuronCommunicator
+# (parse_incoming_raw_bytes -> _dispatch_incoming_msg -> _process_sa / _process_switch_closed/_open), the real
+# FastHardwarePlatform and the real SwitchController, booted once per worker exactly like mpf/tests/test_Fast_Neuron.py
+_FS = {}
+FS_NUMS = [0, 1, 2, 3, 4, 5, 6, 7, 8, 9, 10, 11, 40, 56]       # configured in tests/machine_files/fast/config/neuron.yaml
+SA_BYTES = 14
+
+
+def fastsw_init():
+    import logging
+    logging.disable(logging.CRITICAL)
+    from mpf.tests.test_Fast_Neuron import TestFastNeuron
+
+    class R(TestFastNeuron):
+        def runTest(self):
+            pass
+    r = R("runTest")
+    r.setUp()
+    r.expected_duration = 1e9
+    if r.startup_error:
+        raise RuntimeError("FAST neuron rig did not boot: %r" % (r.startup_error,))
+    p = r.machine.hardware_platforms["fast"]
+    _FS["rig"] = r
+    _FS["platform"] = p
+    _FS["comm"] = p.serial_connections["net"]
+    _FS["sws"] = sorted([sw for sw in r.machine.switches.values() if sw.platform == p], key=lambda sw: sw.hw_switch.number)
+
+
+def gen_fastsw(rng, tier, i):
+    ops = []
+    snaps = []
+    for _ in range(rng.randint(2, 10)):
+        r = rng.random()
+        if r < 0.30:
+            if snaps and rng.random() < 0.5:
+                b = rng.choice(snaps)                      # a snapshot identical to an earlier one (re-sync)
+            else:
+                b = [rng.choice([0, 0, 0xff, rng.randrange(256)]) for _ in range(SA_BYTES)]
+                b[0] = rng.randrange(256)
+                b[1] = rng.randrange(16)
+                if rng.random() < 0.15:
+                    b = [0] * SA_BYTES                     # equal to the baseline snapshot every case starts from
+            snaps.append(b)
+            ops.append(["sa", b])
+        else:
+            n = rng.choice(FS_NUMS + FS_NUMS + [12, 39, 80, 103])
+            ops.append(["closed" if rng.random() < 0.5 else "open", n])
+    if rng.random() < 0.3 and snaps:
+        ops.append(["sa", snaps[0]])
+    return {"ops": ops}
+
+
+def _fs_states():
+    return [int(sw.state) for sw in _FS["sws"]]
+
+
+def run_fastsw(case):
+    if "rig" not in _FS:
+        fastsw_init()
+    comm, sws = _FS["comm"], _FS["sws"]
+    # make the case self-contained (the machine is reused): an all-zero snapshot, then one event per switch that
+    # forces the state that snapshot implies.  Afterwards both the SwitchController and any snapshot cache a changed
+    # implementation might keep are in a state that does not depend on earlier cases.
+    try:
+        comm.parse_incoming_raw_bytes(b"SA:%02X,%s\r" % (SA_BYTES, b"00" * SA_BYTES))
+        for sw in sws:
+            comm.parse_incoming_raw_bytes(b"%sL:%02X\r" % (b"-" if sw.invert else b"/", sw.hw_switch.number))
+    except Exception as e:          # noqa
+        return {"init": [], "trace": [], "err": "baseline: %s: %s" % (type(e).__name__, e), "final": [], "hw": []}
+    init = [[sw.hw_switch.number, bool(sw.invert), int(sw.state)] for sw in sws]
+    trace, err = [], None
+    for op in case["ops"]:
+        if op[0] == "sa":
+            msg = "SA:%02X,%s" % (len(op[1]), bytes(op[1]).hex().upper())
+        else:
+            msg = "%sL:%02X" % ("-" if op[0] == "closed" else "/", op[1])
+        try:
+            comm.parse_incoming_raw_bytes(msg.encode() + b"\r")
+        except Exception as e:      # noqa
+            err = "%s: %s" % (type(e).__name__, e)
+            break
+        trace.append(_fs_states())
+    # the loop is deliberately NOT run: switch state is updated synchronously by the handlers, and running the
+    # queued switch events would start games / fire coils against the scripted mock board.  Drop what was queued.
+    try:
+        _FS["rig"].machine.events.event_queue.clear()
+    except Exception:               # noqa
+        pass
+    hw = [[sw.hw_switch.number, int(sw.hw_state)] for sw in sws]
+    return {"init": init, "trace": trace, "err": err, "final": _fs_states(), "hw": hw}
+
+
+def _bits(b):
+    return [(byte >> i) & 1 for byte in b for i in range(8)]
+
+
+def coq_fastsw(case, out):
+    if out["err"]:
+        return None
+    m = coqlist("(%d, (%s, %d))" % (n, blit(inv), st) for n, inv, st in out["init"])
+    ops = coqlist("(FSnap %s)" % zlist(_bits(o[1])) if o[0] == "sa" else
+                  "(%s %d)" % ("FClosed" if o[0] == "closed" else "FOpen", o[1]) for o in case["ops"])
+    return "((%s, %s), %s)" % (m, ops, coqlist(zlist(t) for t in out["trace"]))
+
+
+def oracle_fastsw(case, out):
+    if out["err"]:
+        return [{"sig": "fast-switch-report-exception", "what": "handling a switch report raised " + out["err"]}]
+    want = {n: st for n, inv, st in out["init"]}
+    inv = {n: i for n, i, st in out["init"]}
+    order = [n for n, _, _ in out["init"]]
+    stale_only = True
+    bad = None
+    last_snap_equal_earlier = False
+    seen = []
+    for k, (op, got) in enumerate(zip(case["ops"], out["trace"])):
+        if op[0] == "sa":
+            bits = _bits(op[1])
+            for n in order:
+                want[n] = (1 if inv[n] else 0) ^ bits[n]
+            last_snap_equal_earlier = op[1] in seen
+            seen.append(op[1])
+        elif op[1] in want:
+            want[op[1]] = 1 if op[0] == "closed" else 0
+        if got != [want[n] for n in order] and bad is None:
+            bad = (k, op[0])
+    if out["final"] != [want[n] for n in order] and bad is None:
+        bad = (len(case["ops"]), "end")
+    if bad is not None:
+        return [{"sig": "fast-switch-state-not-last-report",
+                 "what": "after report #%d (%s) the SwitchController state differs from the last report per switch"
+                         % bad}]
+    # the hardware-side state kept on the switch objects must agree with the logical state
+    for (n, hw), st in zip(out["hw"], out["final"]):
+        if hw != ((1 if inv[n] else 0) ^ st):
+            return [{"sig": "fast-switch-hw-state-inconsistent", "what": "switch %d: hw_state %d, state %d" % (n, hw, st)}]
+    return []
+
+
+def shrink_fastsw(case):
+    ops = case["ops"]
+    for i in range(len(ops)):
+        yield {"ops": ops[:i] + ops[i + 1:]}
+
+
+def nontrivial_fastsw(case, out):
+    kinds = set(o[0] for o in case["ops"])
+    return "sa" in kinds and len(kinds) > 1
+
+
+def describe_fastsw(case):
+    sas = [o[1] for o in case["ops"] if o[0] == "sa"]
+    rep = any(sas[i] in sas[:i] for i in range(len(sas)))
+    return "snapshots=%d%s" % (len(sas), " repeated" if rep else "")
+
+
+HDR_FASTSW = "From C14 Require Import Crc Model.\nDefinition run := fastsw_run.\nDefinition out_eqb := fastsw_out_eqb.\n"
+
 SUITES = [
     Suite("opp", gen_opp, run_opp, HDR_OPP, coq_opp, oracle_opp, shrink_opp, nontrivial_opp,
           {"quick": 2000, "thorough": 120000}, describe=describe_opp, shard=200),
@@ -785,6 +955,8 @@ SUITES = [
           {"quick": 1500, "thorough": 60000}, describe=describe_reader, shard=400),
     Suite("writer", gen_writer, run_writer, HDR_WRITER, coq_writer, oracle_writer, shrink_writer, nontrivial_writer,
           {"quick": 800, "thorough": 30000}, shard=400),
+    Suite("fastsw", gen_fastsw, run_fastsw, HDR_FASTSW, coq_fastsw, oracle_fastsw, shrink_fastsw, nontrivial_fastsw,
+          {"quick": 1200, "thorough": 40000}, worker_init=fastsw_init, describe=describe_fastsw, shard=300),
     Suite("retry", gen_retry, run_retry, None, None, oracle_retry, None, None,
           {"quick": 40, "thorough": 400}),
 ]
